@@ -5,7 +5,9 @@ import random
 PY_SPACES = ["\t", "\x0b", "\x0c", "\x1c", "\x1d", "\x1e", "\x1f", " ", "\x85", "\xa0", "\u1680", "\u2000", "\u2003", "\u2009",
              "\u200a", "\u2028", "\u2029", "\u202f", "\u205f", "\u3000"]
 SPECIALS = [":", ";", "\\", "/", "//", "#", "\n", "\r\n", " ", "\t", "=", ",", "[", "]", "&", "*"]
-WORDS = ["a", "B", "song", "0.000", "1", "dance-single", "Hard", "漢字", "かな", "한", "😀", "é", "x y", "-1.5", "0000"]
+WORDS = ["a", "B", "song", "0.000", "1", "dance-single", "Hard", "漢字", "かな", "한", "😀", "é", "x y", "-1.5", "0000",
+         # text that Unicode normalisation, case mapping or "invisible character" clean-ups would alter: values are kept as they are
+         "e\u0301", "\u212b", "\ufb01", "\u0130", "\u00df", "\u200b", "\ufeff", "\uf900"]
 SM_KEYS = ["TITLE", "SUBTITLE", "ARTIST", "CREDIT", "BANNER", "BACKGROUND", "MUSIC", "OFFSET", "BPMS", "STOPS", "FREEZES",
            "DELAYS", "WARPS", "BGCHANGES", "ANIMATIONS", "KEYSOUNDS", "ATTACKS", "DISPLAYBPM", "SELECTABLE", "GENRE",
            "FOO", "X1", "TIMESIGNATURES", "VERSION", "LABELS", "SAMPLESTART"]
@@ -95,6 +97,26 @@ def values_ok(d):
     return all(isinstance(k, str) and (v is None or isinstance(v, str)) for k, v in d)
 
 
+def dict_api_edit(rng, d, keys, value):
+    """one edit through the rest of the OrderedDict interface (pop / popitem / move_to_end / update / setdefault) of a
+    simfile or chart; returns the same edit spelled as [("del", k) | ("set", k, v)] steps, or None when nothing was done"""
+    how = rng.choice(["pop", "popitem", "move_to_end", "update", "setdefault"])
+    ks = [k for k in d.keys() if k not in ("NOTES", "NOTES2")]
+    if how == "pop" and ks:
+        k = rng.choice(ks); d.pop(k); return [("del", k)]
+    if how == "popitem" and len(d) and next(reversed(d)) not in ("NOTES", "NOTES2"):
+        k, _ = d.popitem(); return [("del", k)]
+    if how == "move_to_end" and ks:
+        k = rng.choice(ks); v = dict.__getitem__(d, k); d.move_to_end(k); return [("del", k), ("set", k, v)]
+    if how == "update":
+        k = rng.choice(keys); d.update({k: value}); return [("set", k, value)]
+    if how == "setdefault":
+        k = rng.choice(keys)
+        if k in d: d.setdefault(k, value); return []
+        d.setdefault(k, value); return [("set", k, value)]
+    return None
+
+
 def edit_sm(rng, sf, steps):
     """random edit script through the public API; returns the log of operations"""
     from simfile.sm import SMChart
@@ -102,7 +124,7 @@ def edit_sm(rng, sf, steps):
     attrs = ["title", "artist", "stops", "bgchanges", "attacks", "displaybpm", "music", "offset", "bpms"]
     for _ in range(steps):
         op = rng.choice(["setkey", "setkey", "setattr", "delkey", "delattr", "addchart", "delchart", "reverse", "replacechart",
-                         "editchart", "editchart", "extradata", "insertchart", "serialize", "extradata_inplace"])
+                         "editchart", "editchart", "extradata", "insertchart", "serialize", "extradata_inplace", "dictapi"])
         try:
             if op == "setkey":
                 k = rng.choice(SM_KEYS); v = rand_multi(rng) if k in ("ATTACKS", "DISPLAYBPM") and rng.random() < .7 else rand_value(rng)
@@ -118,6 +140,9 @@ def edit_sm(rng, sf, steps):
                 a = rng.choice(attrs)
                 if getattr(sf, a) is not None or a.upper() in sf:
                     delattr(sf, a); log.append(["delattr", a])
+            elif op == "dictapi":
+                for st in dict_api_edit(rng, sf, SM_KEYS, rand_value(rng)) or []:
+                    log.append(["delkey", st[1]] if st[0] == "del" else ["setkey", st[1], st[2]])
             elif op in ("addchart", "insertchart", "replacechart"):
                 c = SMChart.blank()
                 for f in ("stepstype", "description", "difficulty", "meter", "radarvalues"):
@@ -182,7 +207,7 @@ def edit_ssc(rng, sf, steps):
     shared = rand_value(rng, allow_none=False, short=True)      # one string object assigned to several properties
     for _ in range(steps):
         op = rng.choice(["setkey", "setkey", "setattr", "delkey", "addchart", "delchart", "reverse", "editchart", "editchart",
-                         "editchart", "chartdel", "shared", "notespos", "serialize"])
+                         "editchart", "chartdel", "shared", "notespos", "serialize", "serialize", "dictapi", "chartdictapi", "chartdictapi"])
         try:
             if op == "setkey":
                 k = rng.choice(SM_KEYS + ["ORIGIN", "JACKET", "COMBOS"]); v = rand_multi(rng) if k in ("ATTACKS", "DISPLAYBPM") and rng.random() < .7 else rand_value(rng)
@@ -226,6 +251,13 @@ def edit_ssc(rng, sf, steps):
                     nv = rng.choice([v if v is not None else "", "", "0", shared])
                     if rng.random() < .3: c.notes = nv; log.append(["cattr", i, "notes", nv])
                     else: c[nk] = nv; log.append(["cset", i, nk, nv])
+            elif op == "dictapi":
+                for st in dict_api_edit(rng, sf, SM_KEYS + ["ORIGIN", "JACKET"], rand_value(rng)) or []:
+                    log.append(["delkey", st[1]] if st[0] == "del" else ["setkey", st[1], st[2]])
+            elif op == "chartdictapi" and sf.charts:
+                i = rng.randrange(len(sf.charts)); c = sf.charts[i]
+                for st in dict_api_edit(rng, c, SSC_CHART_KEYS, rand_value(rng)) or []:
+                    log.append(["cdel", i, st[1]] if st[0] == "del" else ["cset", i, st[1], st[2]])
             elif op == "chartdel" and sf.charts:
                 i = rng.randrange(len(sf.charts)); c = sf.charts[i]
                 ks = [k for k in c.keys() if k not in ("NOTES", "NOTES2")]
@@ -284,7 +316,7 @@ def rand_text(rng, ssc=None):
         return pad(k if r < .6 else (k.lower() if r < .8 else k.capitalize()))
     def val():
         n = rng.randrange(0, 4)
-        s = "".join(rng.choice(["a", "b c", "1.0", "=", ",", nl, "\\:", "\;", "\\\\", "\\#", "/", "漢", " ", "\\//"]) for _ in range(n))
+        s = "".join(rng.choice(["a", "b c", "1.0", "=", ",", nl, "\\:", "\;", "\\\\", "\\#", "/", "漢", " ", "\\//", "e\u0301", "\u212b", "\u0130", "\u200b"]) for _ in range(n))
         if rng.random() < .25:
             # every character str.strip() removes, not only blank/tab/line break, at the edges (SM chart fields are stripped)
             ws = lambda: "".join(rng.choice(PY_SPACES) for _ in range(rng.randrange(1, 3)))
